@@ -73,6 +73,7 @@ class World(object):
         for i in range(len(chain) - 2, -1, -1):
             self.ver[chain[i]] = 0
             self.write(chain[i], self.content(chain[i], 0))
+        supp.scope.builtin_scope.__dict__.pop('names', None)   # process-global memo: every world starts from a fresh one
         self.project = Project([root])
         self.x = os.path.join(root, 'x.py')
         self.reqs = requests(chain, with_d)
@@ -276,7 +277,7 @@ def run(ctx):
         for al in A2d:
             units.append((['a', 'b'], (k,), True, 4000, al))
     if ctx.quick:
-        for ks in (('star', 'star'), ('mod', 'from'), ('from', 'star')):
+        for ks in (('star', 'star'), ('mod', 'from')):
             units.append((['a', 'b', 'c'], ks, False, 4000, A3[0] if ks[0] != 'mod' else A3[2]))
     else:
         for ks in itertools.product(kinds, repeat=2):
